@@ -146,9 +146,74 @@ def fine_grid(ctx):
             ctx.violation("failing-input", e.name, {**found_bad, "broken": f"tie:fine-grid:{e.name}"})
 
 
+def targeted(ctx):
+    """Deterministically constructed inputs for two places random generation reaches rarely:
+    (a) recall@precision where the best admissible curve point has precision EXACTLY equal to a non-dyadic
+        bound (7/10, 3/5, 9/10, 1/3, 2/3): functional and class (update -> compute) vs the exact model;
+    (b) multi-task AUROC / AUPRC whose per-row sorted scores chain across the task-row boundary
+        (min(row i) == max(row i+1), all rows the same constant, clipped 0/1 scores)."""
+    from .. import history
+    s = ctx.stream("targeted: precision == non-dyadic bound; chained task rows")
+    by = {e.name: e for e in ENTS}
+    rng = ctx.rng
+    items = []                                     # (group, entry, cfg, [batches])
+    reps = ctx.n(3, 20)
+    for p in C.MINP_NONDYADIC:
+        for _ in range(reps):
+            e = by["BinaryRecallAtFixedPrecision"]
+            xs, ys = C.gen_exact_bound(rng, p)
+            items.append(("exact-bound", e, {"den": C.DEN, "min_precision": p}, [{"x": xs, "y": ys}]))
+            e = by["MultilabelRecallAtFixedPrecision"]
+            L = rng.choice([2, 3])
+            k, j, m = rng.choice([1, 2]), rng.choice([1, 2, 3]), rng.choice([0, 1, 2])
+            cols = [C.gen_exact_bound(rng, p, C.DEN, k, j, m) for _ in range(L)]
+            items.append(("exact-bound", e, {"den": C.DEN, "num_labels": L, "min_precision": p},
+                          [{"x": C.T_([c[0] for c in cols]), "y": C.T_([c[1] for c in cols])}]))
+    for name in ("BinaryAUROC", "BinaryAUPRC"):
+        e = by[name]
+        for kind in ("chained", "const", "clip"):
+            for t in (2, 3):
+                for _ in range(reps):
+                    cfg = {"den": C.DEN, "num_tasks": t, "chain": kind}
+                    items.append(("chained-rows", e, cfg, [e.gen_batch(rng, cfg, rng.choice([1, 2, 3, 5, 8]))
+                                                           for _ in range(rng.choice([1, 1, 2]))]))
+    cases = []
+    for g, e, cfg, bs in items:
+        ops = [("upd", 0, b) for b in bs] + [("compute", 0)]
+        cases.append(history.model_case(e, cfg, 1, ops))
+        cases.append((e.fn_model, [e.cfg_val(cfg), e.batch_val(cfg, e.concat(cfg, bs))]))
+    outs = run_model(cases)
+    bad = {}
+    for k, (g, e, cfg, bs) in enumerate(items):
+        ops = [("upd", 0, b) for b in bs] + [("compute", 0)]
+        mobs, mfn = outs[2 * k], outs[2 * k + 1]
+        try:
+            d = history.compare_obs(e, ops, mobs, history.run_impl(e, cfg, 1, ops))
+        except Exception as ex:
+            d = {"why": f"implementation raised: {type(ex).__name__}: {ex}"}
+        cat = e.concat(cfg, bs)
+        try:
+            r = e.fn_val(e.functional(cfg, cat))
+        except Exception:
+            r = T("err")
+        d2 = close(mfn, r, e.tol)
+        s.case((g, e.name, repr(cfg), repr(bs)), True, sample={"group": g, "class": e.name, "cfg": cfg})
+        s.count(g + ":" + e.name)
+        key = g + ":" + e.name
+        if (d or d2) and key not in bad:
+            bad[key] = {"group": g, "class": e.name, "cfg": cfg, "batches": bs,
+                        "class_vs_model": d, "functional_vs_model": d2}
+    for key in sorted({g + ":" + e.name for g, e, _, _ in items}):
+        ctx.oblige(f"tie:targeted:{key}", key not in bad, detail=repr(core.canon(bad.get(key)))[:1500] if key in bad else "")
+    for key, v in bad.items():
+        s.mismatches.append(v)
+        ctx.violation("failing-input", v["class"], {**v, "broken": f"tie:targeted:{key}"})
+
+
 def run(ctx):
     streams.hist_corr(ctx, ents=ENTS, nhist=ctx.n(8, 100))
     streams.fn_corr(ctx, ents=ENTS, ncases=ctx.n(45, 600), sizes=(1, 2, 3, 5, 8, 13, 40, 60) if ctx.quick else (1, 2, 3, 5, 8, 13, 40, 60, 200))
+    targeted(ctx)
     fine_grid(ctx)
     exhaustive(ctx)
     tie_profile(ctx)
